@@ -193,6 +193,7 @@ def sync(need_release=False):
     return ok, out
 
 # ------------------------------------------------------------------ running families
+RUN_TIMEOUT = [3000]      # seconds per family run; run_check lowers it for the quick tier
 def _run_sharded(argv, cases, timeout=3000):
     """Feed `cases` (list of lines) to up to NPROC copies of argv; return the list of output lines."""
     if not cases:
@@ -208,7 +209,15 @@ def _run_sharded(argv, cases, timeout=3000):
     import threading
     results = [None] * n
     def work(i):
-        o, _ = procs[i].communicate('\n'.join(shards[i]) + '\n', timeout=timeout)
+        try:
+            o, _ = procs[i].communicate('\n'.join(shards[i]) + '\n', timeout=RUN_TIMEOUT[0] if timeout == 3000 else timeout)
+        except subprocess.TimeoutExpired:
+            # a case does not terminate: keep what was answered before it, the rest of the shard counts as CRASH
+            procs[i].kill()
+            try:
+                o, _ = procs[i].communicate(timeout=30)
+            except Exception:
+                o = ''
         results[i] = o.split('\n')
         if results[i] and results[i][-1] == '':
             results[i].pop()
